@@ -27,7 +27,7 @@ LEVEL_TEXT = ("Generated importable modules (docstrings opened on their own line
               "forms and prefixes, decorators and decorator lists, multi-line signatures, class / method nesting, "
               "definitions under if/try/with, google blocks with and without leading prose, freeform groups separated by "
               "prose at two indentations, blocks under a freeform skip word (DisableDoctest: / Ignore: / Script: ...) before a group, preceding multi-line statements and multi-line wants) whose doctests pass or fail "
-              "at a designated statement in one of eight ways (raise directly, on the 2nd/3rd line of a multi-line "
+              "at a designated statement in one of nine ways (raise directly, a SyntaxError raised at run time by compile(), on the 2nd/3rd line of a multi-line "
               "statement in both prompt styles, inside module code, inside a helper defined by an earlier longer / shorter "
               "part, wrong want of 1-3 lines, wrong want after a multi-line statement) are collected in the styles auto, "
               "google and freeform and run: the start line must be the file line of the first prompt, every part's offset "
@@ -47,7 +47,7 @@ ASSUMPTIONS = [
     "the failing line of an exception is the line CPython reports for the outermost frame inside the doctest",
 ]
 STYLES = ['auto', 'google', 'freeform']
-FAIL_KINDS = (None, None, 'exc', 'exc_multi', 'exc_multi_new', 'want', 'want_after_multi', 'want_after_bare', 'modfunc', 'helper_long', 'helper_short')
+FAIL_KINDS = (None, None, 'exc', 'exc_multi', 'exc_multi_new', 'want', 'want_after_multi', 'want_after_bare', 'rt_syntax', 'modfunc', 'helper_long', 'helper_short')
 
 
 def ref_fail_line(lines, x):
@@ -186,6 +186,8 @@ def _fail_kind(lines, x):
         return 'want_after_multi' if prev.startswith('...') else 'want'
     if 'vp_module_boom' in s:
         return 'modfunc'
+    if 'other_file.py' in s:
+        return 'rt_syntax'
     if re.match(r'>>> h\d+\(1\)', s):
         return 'helper'
     if s.startswith('...'):
@@ -215,7 +217,7 @@ def health(tot, tier):
     c = tot['classes']
     n = max(1, sum(v for k, v in c.items() if k.startswith('outcome:')))
     for need in ('outcome:KeyError', 'outcome:ZeroDivisionError', 'outcome:GotWantException', 'outcome:ValueError',
-                 'outcome:IndexError', 'outcome:pass'):
+                 'outcome:IndexError', 'outcome:SyntaxError', 'outcome:pass'):
         if c.get(need, 0) < 0.01 * n:
             return 'class {} is below 1% of the doctests run'.format(need)
     return None
